@@ -36,19 +36,16 @@ func init() {
 					n++
 					dst := engine.Describe(call.Common().Args[1])
 					src := call.Common().Args[0]
-					okDst := strings.Contains(dst, ".Path") && !strings.Contains(engine.Describe(src), ".Path")
+					// the destination is the storage path and the source is not (it is the temp
+					// file's name, which may well have been derived from the path's directory)
+					okDst := strings.Contains(dst, ".Path") && engine.Describe(src) != dst
 					// source is the name of a temp file created by os.CreateTemp; Write, Sync, Close on it dominate the rename with nil errors
 					tmp := engine.FindCallBack(src, "os.CreateTemp")
 					okSeq := len(tmp) == 1
 					if okSeq {
+						isTmp := func(v ssa.Value) bool { return engine.CallOf(v) == tmp[0] }
 						for _, m := range []string{"(*os.File).Write", "(*os.File).Sync", "(*os.File).Close"} {
-							found := false
-							for _, mc := range engine.CallsTo(f, false, m) {
-								if engine.CallOf(engine.Args(mc.Common())[0]) == tmp[0] && engine.Dominates(mc, call) && errNilGuards(mc, call) {
-									found = true
-								}
-							}
-							if !found {
+							if !fileOpBefore(f, isTmp, m, call, 1) {
 								okSeq = false
 							}
 						}
@@ -61,6 +58,54 @@ func init() {
 		c.Check(renames > 0 || n == 0, "C31.R1", "StoreSession/atomic-replace", fn.Pos(), "StoreSession must publish the new contents with os.Rename of a fully written temp file")
 		c.Floor("C31.R1", 1, n)
 	})
+}
+
+// fileOpBefore: instruction at (in f) is reached only after a successful call of
+// method m on the file identified by isFile — made in f itself, or inside a
+// same-package helper that is handed the file, whose nil-error result guards
+// at, and every nil-error return of which is in turn reached only after a
+// successful m on that parameter.
+func fileOpBefore(f *ssa.Function, isFile func(ssa.Value) bool, m string, at ssa.Instruction, depth int) bool {
+	for _, mc := range engine.CallsTo(f, false, m) {
+		if isFile(engine.Args(mc.Common())[0]) && engine.Dominates(mc, at) && errNilGuards(mc, at) {
+			return true
+		}
+	}
+	if depth <= 0 {
+		return false
+	}
+	for _, hc := range engine.Calls(f) {
+		h := hc.Common().StaticCallee()
+		if h == nil || len(h.Blocks) == 0 || h.Pkg != f.Pkg || !engine.Dominates(hc, at) || !errNilGuards(hc, at) {
+			continue
+		}
+		for i, a := range engine.Args(hc.Common()) {
+			if i >= len(h.Params) || !isFile(a) {
+				continue
+			}
+			p := ssa.Value(h.Params[i])
+			isP := func(v ssa.Value) bool { return engine.Unwrap(v) == p }
+			idx := engine.ErrIndex(h)
+			all, any := true, false
+			for _, r := range engine.Returns(h) {
+				if idx < 0 || engine.ReturnKind(r, idx) == "nonnil" {
+					continue
+				}
+				any = true
+				// "return tmp.Close()": the returned error is that of m itself
+				if mc := engine.CallOf(engine.RetVal(r, idx)); mc != nil && engine.CalleeID(mc.Common()) == m && isP(engine.Args(mc.Common())[0]) {
+					continue
+				}
+				if !fileOpBefore(h, isP, m, r, depth-1) {
+					all = false
+				}
+			}
+			if all && any {
+				return true
+			}
+		}
+	}
+	return false
 }
 
 // errNilGuards: `at` is reached only when the error result of call mc is nil.
